@@ -274,6 +274,13 @@ def locate(toks, path):
     return j, o, c
 
 
+# `replace` edits rewrite the *shape* of an expression the verifier cannot take (a std call -> a stand-in with the same
+# arguments, `.await` dropped, ...).  Whether the shape occurs once or three times says nothing about the property, so a
+# count that differs from the declared one is logged, not fatal: occurrences that are left are either accepted by Verus
+# as they are or make the unit undecided (unsupported construct).  Only edits that carry a contract stay strict.
+STRICT_COUNT_KINDS = {"closure-contract"}
+
+
 class Item:
     """An extracted item: a private copy of its tokens, edited in place by declared edits."""
 
@@ -368,7 +375,7 @@ class Item:
                     i = end + len(post)
                     continue
             i += 1
-        if count >= 0 and len(hits) != count:
+        if count >= 0 and len(hits) != count and kind in STRICT_COUNT_KINDS:
             raise LostAnchor("%s: pattern `%s` matched %d times in %s, expected %d"
                              % (kind, " ".join(pat), len(hits), self.path, count))
         rep = tokenize(rep_src)
@@ -405,7 +412,7 @@ class Item:
             if h > last:
                 flt.append(h)
                 last = h + len(pat) - 1
-        if count >= 0 and len(flt) != count:
+        if count >= 0 and len(flt) != count and kind in STRICT_COUNT_KINDS:
             raise LostAnchor("%s: pattern `%s` matched %d times in %s, expected %d"
                              % (kind, " ".join(pat), len(flt), self.path, count))
         rep = tokenize(rep_src)
@@ -594,8 +601,7 @@ class Item:
             if t.s == old and t.line != 0:
                 t.s = new
                 n += 1
-        if n == 0:
-            raise LostAnchor("rename: identifier `%s` does not occur in the body of %s" % (old, self.path))
+        # nothing to rename is fine (a body that no longer mentions the identifier needs no renaming)
         self.log.append({"kind": "rename", "from": old, "to": new, "count": n, "why": why})
 
     def enum_eq(self, prefix_src, count, why="", call=None, exact_rhs=False):
@@ -837,6 +843,21 @@ class Item:
         self.toks[c:c] = ins
         self.toks[c + len(ins)].ws = "\n"
         self.log.append({"kind": "contract", "at": "loop-end:%d" % k, "text": text.strip()})
+
+    def insert_after_loop(self, k, text):
+        """insert right after the closing brace of loop k (a statement position: a loop used as a statement)"""
+        ls = self.loops()
+        if k < 1 or k > len(ls):
+            raise LostAnchor("loop ordinal %d not found in %s" % (k, self.path))
+        o = self.loop_body_open(ls[k - 1])
+        c = match_close(self.toks, o) + 1
+        ins = tokenize("\n" + text + "\n")
+        for t in ins:
+            t.line = 0
+        self.toks[c:c] = ins
+        if c + len(ins) < len(self.toks) and not self.toks[c + len(ins)].ws:
+            self.toks[c + len(ins)].ws = "\n"
+        self.log.append({"kind": "contract", "at": "after-loop:%d" % k, "text": text.strip()})
 
     def insert_after_stmt(self, anchor_src, nth, text):
         """insert after the `;` that ends the statement containing the nth occurrence of anchor"""
